@@ -46,6 +46,7 @@ def run(R):
                  "claims monitored: pending undelegations, delegator rewards, layer2 user bonds, collective contributor bonds, identity-verification tips, recovery-token holder rewards, accrued spending-pool entitlements (fixed-rate pools, recomputed with the claim formula); basket and LP holdings are bank coins and monitored as balances",
                  "reading: a claim paid out to its own owner, or released by the payee the owner recorded (identity verifier), is not a reduction; a custody reward share paid to a LISTED custodian who votes is part of the owner's request",
                  "threshold-type authorisations are decided exactly from the observed records (2*held >= supply; approvals*100 >= mode*custodians); the generator sweeps both sides of every boundary (odd/even recovery-token supply via the real burn message, supply 1 and 3, custody (n,mode) pairs around k/n)",
+                 "block phase: a user's claim records (every kind, per owner and denom) may only grow, be paid to the owner, or be converted into staked shares of the same owner at the pool's rate read from the pre-state; the generator drives auto-compounding (RegisterDelegator + SetCompoundInfo, AllDenom true/false, 1..3 denoms, fees and recorded rewards in ukex/ubtc/xeth, ubtc StakeMin raised in some histories, interval 1-2 blocks). A reward credited and erased inside one BeginBlock is invisible to a pre/post monitor; recorded leftovers from earlier rounds make the erasure visible. Not driven: successful dApp bootstrap (bonds -> LP entitlements), pool slashing",
                  "raw Ethereum transactions: only the forged direction is generated (attacker-signed raw tx naming a victim without / with a key on record)"]
     R.gen("gen_signers", "DebitSites.v")
     R.coq_files(FILES)
